@@ -11,6 +11,7 @@ import (
 	"sync"
 	"sync/atomic"
 	"testing"
+	"verif/internal/build"
 
 	"pgregory.net/rapid"
 
@@ -39,7 +40,7 @@ type Case struct {
 	// stream.  The "original source" is then what that stream still had to give.
 	ChainLoader string `json:"chain_loader,omitempty"`
 	ChainSkip   int    `json:"chain_skip,omitempty"`
-	Loader        string `json:"loader"`
+	Loader      string `json:"loader"`
 	// Std > 0: the source is a *bytes.Reader (seekable, WriterTo, ReaderAt) holding Std-1 unrelated bytes in
 	// front of the input and already advanced past them, as when an image is embedded in a container
 	Std int `json:"std_reader_prefix_plus_1,omitempty"`
@@ -469,6 +470,46 @@ func TestC07(t *testing.T) {
 		}
 	}
 	ev.Class("large-inputs", int64(2*len(sizes)))
+	// embedded profiles of 600 KiB and 1.5 MiB read from sources that deliver whatever is asked for: the loader's
+	// growing reads hand the recorder single pieces of hundreds of KiB
+	{
+		var nbig int64
+		for _, n := range []int{600 << 10, 1500<<10 + 7} {
+			prof := make([]byte, n)
+			x := uint32(n)
+			for i := range prof {
+				x = x*1664525 + 1013904223
+				prof[i] = byte(x >> 24)
+			}
+			pd, _ := build.PNG{W: 7, H: 5, Depth: 8, ColorType: 2, Pre: []build.Chunk{build.ICCPChunk("big", prof, 0)}, IDAT: make([]byte, 3000)}.Bytes()
+			wd, _ := build.WebP{Chunks: []build.RIFFChunk{{FourCC: "VP8X", Data: build.VP8XHeader(0x20, 7, 5)}, {FourCC: "ICCP", Data: prof}, {FourCC: "VP8L", Data: build.VP8LHeader(7, 5, false)}}}.Bytes()
+			var sz []int
+			for r := n; r > 0; r -= 65519 {
+				if r > 65519 {
+					sz = append(sz, 65519)
+				}
+			}
+			jd, _ := build.JPEG{Segs: append(build.ICCSegs(prof, sz), build.Seg{Marker: 0xC0, Data: build.SOF(8, 5, 7, [][3]byte{{1, 0x11, 0}})}), SOS: []byte{1, 1, 0, 0, 63, 0}, Entropy: make([]byte, 3000)}.Bytes()
+			for fi, d := range [][]byte{pd, wd, jd} {
+				for _, loader := range []string{[]string{"png", "webp", "jpeg"}[fi], "auto"} {
+					for _, c := range []Case{
+						{Seed: fmt.Sprintf("file with a %d-byte embedded profile", n), Data: d, FaultAt: -1, Drain: []int{32768}, Loader: loader},
+						{Seed: fmt.Sprintf("file with a %d-byte embedded profile", n), Data: d, FaultAt: -1, Drain: []int{-1}, Loader: loader, Std: 1, StdKind: "bytes.Reader"},
+						{Seed: fmt.Sprintf("file with a %d-byte embedded profile", n), Data: d, FaultAt: int64(len(d) - 1000), FaultWithData: true, Sizes: []int{300000}, Drain: []int{4096}, Loader: loader},
+					} {
+						ev.Eval(1)
+						nbig++
+						ev.NT(ev.Hash("bigprofile", n, fi, loader, c.Std, c.FaultAt))
+						if k, w, _ := check(c); k != "" {
+							c.Data = nil
+							ev.Violation("stream", k, w, c)
+						}
+					}
+				}
+			}
+		}
+		ev.Class("big-profiles", nbig)
+	}
 	// rapid: generated files, rapid schedules and drains
 	ev.RapidChecks(ev.Pick(3000, 100000))
 	ev.RapidSeed(7)
